@@ -60,6 +60,14 @@ def _depth(n, d=0):
     return max([_depth(x, d + 1) for x in n] or [d + 1])
 
 
+def _mentions(name, inner, d=0):
+    if name == inner:
+        return True
+    if isinstance(name, tuple) and d < 8:
+        return any(_mentions(x, inner, d + 1) for x in name)
+    return False
+
+
 def const(v):
     if v is None:
         return NONE
@@ -639,7 +647,14 @@ class Domain(object):
             it = None
             src = s.iter if isinstance(s, ast.For) else s.generators[0].iter
             itv = self.eval(src, fr, state)
-            st = self.assign(node.info['target'], sym(('elem', itv.name), set(itv.deps) | {'elem-of'}), fr, state, node)
+            ev = sym(('elem', itv.name), set(itv.deps) | {'elem-of'})
+            st = self.assign(node.info['target'], ev, fr, state, node)
+            # a new element is bound to the same symbol: facts established about the previous element no longer hold
+            stale = [k for k in st.facts if _mentions(k, ev.name)]
+            if stale:
+                st = st.copy()
+                for k in stale:
+                    del st.facts[k]
         elif what == 'comp-done':
             deps = set()
             for g in s.generators:
